@@ -306,7 +306,9 @@ func ruleVersionNegotiation(c *Ctx) {
 	info := f.Pkg.TypesInfo
 	g := p.Graph(f)
 	vpF := p.FieldObj(modPath, "ServeConfig", "VersionedPlugins")
-	und := func(what string) { c.R.Undecided("R-NEG", f.Name, what, "the negotiation algorithm is not in the recognised shape (descending sort, first match, else lowest); teach the rule the new idiom") }
+	und := func(what string) {
+		c.R.Undecided("R-NEG", f.Name, what, "the negotiation algorithm is not in the recognised shape (descending sort, first match, else lowest); teach the rule the new idiom")
+	}
 	// (1) outer loop: a range statement containing a 3-result return, not nested in another range over a slice
 	var outer *ast.RangeStmt
 	ast.Inspect(f.Body, func(x ast.Node) bool {
@@ -612,10 +614,10 @@ func ruleEnvVersionsOnly(c *Ctx) {
 	stV, stP := false, false
 	for _, m := range g.Nodes {
 		if as, isAs := m.Ast.(*ast.AssignStmt); isAs && len(as.Lhs) == 1 && len(as.Rhs) == 1 {
-			if SelField(info, as.Lhs[0]) == nvF && identObj(info, as.Rhs[0]) == vars[0] {
+			if SelField(info, as.Lhs[0]) == nvF && identObj(info, as.Rhs[0]) == vars[0] && si.mustPassNode(m) {
 				stV = true
 			}
-			if SelField(info, as.Lhs[0]) == plF && identObj(info, as.Rhs[0]) == vars[1] {
+			if SelField(info, as.Lhs[0]) == plF && identObj(info, as.Rhs[0]) == vars[1] && si.mustPassNode(m) {
 				stP = true
 			}
 		}
@@ -736,8 +738,19 @@ func ruleStdioWiring(c *Ctx) {
 			return
 		}
 		found := false
-		for _, call := range f.Calls() {
-			ce := p.FnOf(asFunc(p.Callee(f, call)))
+		var calls []*ast.CallExpr
+		ast.Inspect(f.Body, func(x ast.Node) bool {
+			if call, ok := x.(*ast.CallExpr); ok {
+				calls = append(calls, call)
+			}
+			return true
+		})
+		for _, call := range calls {
+			holder := p.EnclosingFunc(call)
+			if holder == nil {
+				holder = f
+			}
+			ce := p.FnOf(asFunc(p.Callee(holder, call)))
 			if ce == nil || ce.Name != callee {
 				continue
 			}
